@@ -70,10 +70,13 @@ fn main() {
                 "validate" => seq::Profile::Validate,
                 "flushy" => seq::Profile::Flushy,
                 "cow" => seq::Profile::Cow,
+                "crashy" => seq::Profile::Crashy,
                 _ => seq::Profile::General,
             };
             let nops: usize = m.get("ops").and_then(|s| s.parse().ok()).unwrap_or(40);
             let dump = m.get("dump").map(|s| s == "1").unwrap_or(false);
+            let crashlog = m.get("crashlog").map(|s| s == "1").unwrap_or(false);
+            let mut crash: Vec<String> = Vec::new();
             let mut inp = Vec::new();
             let mut imp = Vec::new();
             let mut log = Vec::new();
@@ -202,6 +205,9 @@ fn main() {
                         write_lines(&format!("{}.flat", dest), &images.flat);
                     }
                 }
+                if crashlog && case.img == "format" {
+                    std::fs::write(format!("{}/case{}.img0", out, case.id), &images.files[0]).unwrap();
+                }
                 if case.img != "format" {
                     // sidecars for the Lean driver: initial images, plaintext of
                     // compressed clusters, ground-truth guest content
@@ -225,10 +231,18 @@ fn main() {
                 log.push(format!("case {}", case.id));
                 log.extend(seq::log_lines(&r.files));
                 log.push("end".into());
+                if crashlog {
+                    crash.push(format!("case {}", case.id));
+                    crash.extend(seq::crash_lines(&r.files));
+                    crash.push("end".into());
+                }
             }
             flush_to(&mut f_in, &mut inp);
             flush_to(&mut f_impl, &mut imp);
             flush_to(&mut f_log, &mut log);
+            if crashlog {
+                write_lines(&format!("{}/crash.log", out), &crash);
+            }
             println!("seq cases={}", ncases);
         }
         "respond" => {
